@@ -353,11 +353,14 @@ struct World {
     obs: Vec<Option<Obs>>,
     /// `new_mut` functions on the call stack
     mut_depth: usize,
+    /// runs of each effect on the call stack
+    imm_running: Vec<u32>,
 }
 
 #[derive(Clone, Copy, PartialEq, Debug)]
 enum EKind {
     Other,
+    Async,
     Imm,
     ScopedImm,
     MutImm,
@@ -639,7 +642,8 @@ impl World {
                     keep.push(e);
                     continue;
                 }
-                if self.fn_alive[e] {
+                // (one that is running is dropped when its run returns: checked at the end of the op)
+                if self.fn_alive[e] && self.imm_running[e] == 0 {
                     self.fail("not-disposed", format!("scoped immediate effect {e} outlives the scope it was created in"));
                 }
                 self.sh.exp_live.insert(H::E(e), false);
@@ -716,8 +720,18 @@ fn run_effect_body(eid: usize, b: usize) -> i64 {
     // closure entry: `with_cleanup`'s cleanup phase has just finished
     w(|w| {
         if w.sh.doomed[eid] {
-            w.fail("zombie-effect", format!("effect {eid} ran after it was disposed"));
+            if w.imm_running[eid] > 0 {
+                // F-C08-3
+                w.tags.insert("imm-midrun-dispose");
+                w.fail(
+                    "imm-reruns-after-dispose",
+                    format!("immediate effect {eid} was disposed while it was running and has been run again"),
+                );
+            } else {
+                w.fail("zombie-effect", format!("effect {eid} ran after it was disposed"));
+            }
         }
+        w.imm_running[eid] += 1;
     });
     ev(Ev::R(eid));
     w(|w| {
@@ -740,6 +754,7 @@ fn run_effect_body(eid: usize, b: usize) -> i64 {
         if w.ekind[eid] == EKind::MutImm {
             w.mut_depth -= 1;
         }
+        w.imm_running[eid] -= 1;
     });
     ev(Ev::S(eid, sum));
     sum
@@ -1047,7 +1062,9 @@ fn exec_bop(op: &BOp, sum: &mut i64) {
         BOp::Async(b) => {
             let eid = w(|w| {
                 w.tags.insert("async");
-                new_eff_slot(w)
+                let eid = new_eff_slot(w);
+                w.ekind[eid] = EKind::Async;
+                eid
             });
             let sentinel = Sentinel(eid);
             let a = AsyncDerived::new(move || {
@@ -1127,7 +1144,11 @@ fn exec_bop(op: &BOp, sum: &mut i64) {
             }
         }
         BOp::Write(s, v) => {
-            if w(|w| w.memo_depth > 0 || w.mut_depth > 0) {
+            if w(|w| {
+                w.memo_depth > 0
+                    || w.mut_depth > 0
+                    || matches!(w.obs.last(), Some(Some(Obs::Eff(e))) if w.ekind[*e] == EKind::Async)
+            }) {
                 return;
             }
             if let Some(sig) = w(|w| w.sigs.get(s).copied()) {
@@ -1164,6 +1185,7 @@ fn exec_bop(op: &BOp, sum: &mut i64) {
                 w.eff_runs.push(0);
                 w.effs.push(AnyEff::Task);
                 w.ekind.push(EKind::Task);
+                w.imm_running.push(0);
                 w.fn_alive.push(true);
                 w.task_info.push(Some(TaskInfo {
                     scope,
@@ -1227,6 +1249,7 @@ fn new_eff_slot(w: &mut World) -> usize {
     w.ekind.push(EKind::Other);
     w.fn_alive.push(true);
     w.task_info.push(None);
+    w.imm_running.push(0);
     w.effs.len() - 1
 }
 
@@ -1516,14 +1539,16 @@ fn finish_op(is_end: bool) -> String {
     w(|w| {
         // effect tasks that ended during this op: their owner was dropped
         let ended = std::mem::take(&mut w.ended);
+        let mut over = vec![];
         for (e, o, post, t, dropped) in ended {
-            if let Some(e) = e {
-                if !w.sh.doomed[e] {
-                    w.fail("frame", format!("the task of live effect {e} ended"));
-                }
-            }
+            over.extend(e);
             if dropped {
                 w.sh_release_at(o, true, Some((post, t)));
+            }
+        }
+        for e in over {
+            if !w.sh.doomed[e] {
+                w.fail("frame", format!("the task of live effect {e} ended"));
             }
         }
         // every cleanup that ran belongs to a scope that was released
@@ -1608,13 +1633,14 @@ fn finish_op(is_end: bool) -> String {
         };
         let ch = if changes.is_empty() { "-".to_string() } else { changes.join(",") };
         // recorded deviations are reported after anything else, in a fixed order
-        let soft = ["ctx-survives-cleanup", "watch-handler-unowned"];
+        let soft = ["ctx-survives-cleanup", "imm-reruns-after-dispose", "watch-handler-unowned"];
         let class_of = |f: &String| f.split(' ').next().unwrap_or("").to_string();
         let first = w
             .fails
             .iter()
             .find(|f| !soft.contains(&class_of(f).as_str()))
             .or_else(|| w.fails.iter().find(|f| class_of(f) == soft[0]))
+            .or_else(|| w.fails.iter().find(|f| class_of(f) == soft[1]))
             .or_else(|| w.fails.first());
         let verdict = match first {
             None => "ok".to_string(),
@@ -2020,13 +2046,15 @@ fn gen_task_matrix() -> Vec<Vec<String>> {
                         ("drop", _) => vec!["drop 1".into()],
                         (_, "wc") => vec!["wc 1 1".into()],
                         (_, "j") => vec!["set 0 2".into()],
-                        // the host's task comes first in the ready list
+                        // a render effect's first run (which spawns the scoped task) precedes the spawn
+                        // of its own task; an effect's task comes first
+                        (_, "v") if when != "after" => vec!["set 0 2".into(), "poll 1".into()],
                         _ => vec!["set 0 2".into(), "poll 0".into()],
                     };
                     match when {
                         "before" => l.extend(release),
                         "between" => {
-                            l.push("poll 9".into()); // the last ready task: the one just spawned
+                            l.push("poll 0".into()); // the task just spawned
                             l.extend(release);
                         }
                         _ => {
